@@ -19,6 +19,12 @@ def dispatch(pid: str, tier: str) -> int:
     if pid == 'C08':
         from harness import check_select
         return check_select.c08(tier)
+    if pid in ('C17', 'C09'):
+        from harness import check_words
+        return getattr(check_words, pid.lower())(tier)
+    if pid == 'C18':
+        from harness import check_validate
+        return check_validate.c18(tier)
     raise MachineryError(f'no check for {pid}')
 
 
